@@ -106,9 +106,43 @@ def _quiet():
     sys.stdout = open(os.devnull, "w")
 
 
+class CaseTimeout(BaseException):
+    """raised inside a worker when ONE case has used more CPU time than CASE_CPU_LIMIT (derives from BaseException so that the
+    harnesses' own `except Exception` around library calls lets it through)"""
+
+
+CASE_CPU_LIMIT = float(os.environ.get("VERIF_CASE_CPU_LIMIT", "60"))
+
+
+def _on_cpu_limit(signum, frame):
+    raise CaseTimeout()
+
+
+def _guarded(f, *a):
+    """run f under a CPU-time watchdog: a library call that never returns (a loop whose exit condition a change has broken) must
+    show up as a violation of that case, not as a check that never finishes.  CPU time (ITIMER_VIRTUAL), not wall time: a loaded
+    machine must not turn slow cases into alarms; 60 s of CPU for one case is three orders of magnitude above the slowest case."""
+    import signal
+    try:
+        old = signal.signal(signal.SIGVTALRM, _on_cpu_limit)
+    except ValueError:      # not in the main thread of this process: run unguarded
+        return f(*a)
+    signal.setitimer(signal.ITIMER_VIRTUAL, CASE_CPU_LIMIT)
+    try:
+        return f(*a)
+    finally:
+        signal.setitimer(signal.ITIMER_VIRTUAL, 0)
+        signal.signal(signal.SIGVTALRM, old)
+
+
 def _safe_check(part, case):
     try:
-        return part.check(case)
+        return _guarded(part.check, case)
+    except CaseTimeout:
+        return 1, "non-termination", None, [
+            Viol("non-termination", f"this case did not finish within {CASE_CPU_LIMIT:g} s of CPU time (every case of this part takes "
+                                    f"milliseconds to seconds): a call into the library does not return", None)
+        ]
     except Exception as e:  # the oracle met something it cannot even interpret
         tb = traceback.format_exc(limit=6)
         return 1, "harness-exception", None, [
@@ -178,6 +212,10 @@ def _work_inputs(args):
         acc.add(idx, case, res, seed)
         if len(redo) < 40:
             redo.append((idx, case, res))
+        if res[1] == "non-termination":
+            # one case of this shard ran into the CPU watchdog: the run is a failed run; do not wait for the same loop again and again
+            acc.aborted = True
+            break
         if acc.nunsigned >= MAX_VIOLS_PER_WORKER:
             # this shard has already reported the maximum number of violations it may carry: the run is a failed run whatever
             # the remaining cases say, so stop here (a tree in which e.g. every lookup hangs until the watchdog fires would
@@ -186,6 +224,8 @@ def _work_inputs(args):
             break
     # determinism self-test: the same case must give the same observation twice
     for idx, case, res in (redo[:3] if acc.aborted else redo):
+        if res[1] == "non-termination":
+            continue
         res2 = _safe_check(part, case)
         if (res[1], [v["kind"] for v in res[3]]) != (res2[1], [v["kind"] for v in res2[3]]):
             acc.nondet.append((idx, repr(case)[:300]))
@@ -201,13 +241,21 @@ def _work_bfs(args):
         for op in part.ops(st):
             case = (st, op)
             try:
-                succ, n, outcome, nontriv, viols = part.step(st, op)
+                succ, n, outcome, nontriv, viols = _guarded(part.step, st, op)
+            except CaseTimeout:
+                succ, n, outcome, nontriv = None, 1, "non-termination", None
+                viols = [Viol("non-termination", f"this transition did not finish within {CASE_CPU_LIMIT:g} s of CPU time: a call into the library does not return")]
             except Exception as e:
                 succ, n, outcome, nontriv = None, 1, "harness-exception", None
                 viols = [Viol("harness-exception:" + type(e).__name__, traceback.format_exc(limit=6))]
             acc.add(depth * 10**9 + base + k, case, (n, outcome, nontriv, viols), seed)
+            if outcome == "non-termination":
+                acc.aborted = True
+                break
             if succ is not None and not viols:
                 succs.append((succ, base + k, op))
+        if acc.aborted:
+            break
     # de-duplicate locally to cut transfer volume
     local = {}
     for succ, k, op in succs:
@@ -319,6 +367,10 @@ def _run_bfs(pi, part, tot, pool, seed, log):
         log(f"    bfs {part.name}: depth {depth} states={len(seen)} new={len(nxt)} "
             f"transitions={tot['trans']} pruned={tot['pruned']}")
         frontier = nxt
+        if tot.get("aborted"):
+            tot["exhaustive"] = False
+            tot["notes"].append(f"a transition ran into the CPU watchdog at depth {depth}; the exploration of this part stops here")
+            break
         if part.state_cap and len(seen) > part.state_cap:
             tot["exhaustive"] = False
             tot["notes"].append(f"state cap {part.state_cap} hit at depth {depth}; "
